@@ -13,8 +13,8 @@ import vfbuild
 from vfbuild import VERIF, BUILD
 from vfprops import PROPS
 
-EVIDENCE = os.path.join(VERIF, "evidence")
-FAILURES = os.path.join(VERIF, "failures")
+EVIDENCE = os.path.join(VERIF, "evidence") if vfbuild.REPO == "/repo" else os.path.join(BUILD, "evidence")
+FAILURES = os.path.join(VERIF, "failures") if vfbuild.REPO == "/repo" else os.path.join(BUILD, "failures")
 REPLAYS = os.path.join(VERIF, "replays")
 KNOWN = os.path.join(VERIF, "known_findings.txt")
 
